@@ -467,7 +467,10 @@ def eigen_specs(draw):
     kind = draw(st.sampled_from(['member', 'member', 'near-member', 'non-near', 'non-near', 'non-random', 'zero']))
     ccx = draw(st.booleans())
     c = draw(st.one_of(st.just(1.0), st.tuples(signed(0.2, 3.0), real(-3.0, 3.0)).map(list) if ccx
-                       else signed(0.2, 3.0)))
+                       else signed(0.2, 3.0),
+                       # "under any rescaling of v": also by factors far from 1 (a seeded change took a small true
+                       # eigenvector for the zero vector under percentage tolerances)
+                       st.sampled_from([1e-4, -6e-5, 1e-3, 250.0, -4000.0, 2e-5])))
     return {'n': n, 'cx': cx, 'R': draw(mat(cx, n, n)), 'T': draw(tri(cx, n)), 'D': D, 'k': draw(st.integers(0, n - 1)),
             'c': c, 'mix': draw(vec(True, n)), 'kind': kind, 'rho': draw(RHO), 'eps': draw(st.sampled_from([0.3, 0.9])),
             'dir': draw(vec(cx, n)), 'tol': tol, 'seed': draw(SEED),
